@@ -1,12 +1,14 @@
 import Driver.Util
 import Driver.Volume
 import Driver.Wopn
+import Driver.BankMap
 
 def main (args : List String) : IO UInt32 := do
   let stdin ← IO.getStdin
   let stdout ← IO.getStdout
   match args with
   | ["volume"] => Driver.loop stdin stdout Driver.Volume.step (); return 0
+  | ["bankmap"] => Driver.loop stdin stdout Driver.BankMap.step Driver.BankMap.init; return 0
   | ["wopn"] => Driver.loop stdin stdout Driver.Wopn.step (); return 0
   | _ =>
     IO.eprintln "usage: opnmodel <component>   (ops on stdin, one observation line per op on stdout)"
